@@ -177,6 +177,8 @@ def run(ctx):
             spec['stext'] = list(stx.items())
             spec['stext_leading'] = bool(rng.integers(2))
             spec['pad_before_stext'] = int(rng.integers(0, 5))
+            if rng.random() < 0.4:
+                spec['stext_position'] = 'before_text'       # segment order HEADER, supplemental TEXT, TEXT, DATA
         if use_ana:
             spec['analysis'] = list(ana.items())
             spec['analysis_leading'] = bool(rng.integers(2))
@@ -201,7 +203,7 @@ def run(ctx):
             want_ana = ana if use_ana else {}
             ctx.check(o.value.analysis == want_ana, 'file:analysis', cid, where=where, got=o.value.analysis,
                       want=want_ana, delim=delim, warnings=o.warnings)
-        ctx.case_done(class_key=('file', cell[0], 'stext' if use_stext else '-', 'ana-' + spec.get('analysis_offsets', 'none')
+        ctx.case_done(class_key=('file', cell[0], ('stext-' + spec.get('stext_position', 'after_text')) if use_stext else '-', 'ana-' + spec.get('analysis_offsets', 'none')
                                  if use_ana else 'noana'), nontrivial=True, distinct_key=core.digest(raw))
 
     # the repository's own reader tests (many hand-written TEXT segments) as a workload under the in-situ monitor
